@@ -37,8 +37,20 @@ struct Node {
     name: String,
 }
 
+/// Ports are handed out from a counter that is shared by all cases of this process (the servers bind their ports some
+/// time after they were chosen, and the sync listener sets SO_REUSEPORT: a port picked by binding port 0 and releasing
+/// it can be handed to two cases at once, and a follower would then join a foreign leader).
 fn free_port() -> u16 {
-    std::net::TcpListener::bind("127.0.0.1:0").expect("port").local_addr().expect("addr").port()
+    use std::sync::atomic::{AtomicU32, Ordering};
+    static NEXT: AtomicU32 = AtomicU32::new(0);
+    let base = 20000 + (std::process::id() % 16) * 2500;
+    loop {
+        let n = NEXT.fetch_add(1, Ordering::SeqCst);
+        let port = (base + n % 2500) as u16;
+        if std::net::TcpListener::bind(("127.0.0.1", port)).is_ok() {
+            return port;
+        }
+    }
 }
 
 fn server_bin() -> PathBuf {
